@@ -1,6 +1,6 @@
 """C13 - a modification that raises leaves the session exactly as it was.
 
-CrossHair harnesses (checks/h_c13.py) over a fixed list of 96 modification calls (create / assign / set() / one-to-one
+CrossHair harnesses (checks/h_c13.py) over a fixed list of ~100 modification calls (create / assign / set() / one-to-one
 reassignment / collection add, remove, assignment / delete and cascades of depth 2 / mixed-session objects and validation
 errors) on a real in-memory SQLite session.  Symbolic: the scenario of the family, the FAULT INDEX k (ConstraintError raised
 instead of the k-th internal step - update_simple_index, update_composite_index, update_reverse, reverse_add, reverse_remove,
@@ -36,7 +36,8 @@ def _describe(spec, cex):
     from checks import h_c13 as h
     try:
         holds, key, why, info = h.explain(spec['fn'], cex.get('s', 0), cex.get('k', 0), cex.get('mode', 0), cex.get('order', False), cex.get('follow', 0))
-        o, hi, p = h.MODES[min(max(cex.get('mode', 0), 0), h.N_MODES - 1)]
+        modes = h.modes_of(spec['fn'])
+        o, hi, p = modes[min(max(cex.get('mode', 0), 0), len(modes) - 1)]
         return ('%s; %s; raised %s; objects %s, history %s, %s | %s' % (
             info['scenario'], ('fault injected at step %d (%s)' % (cex.get('k', 0), info['injected'])) if info['injected'] else 'no injected fault',
             info['raised'], ('loaded from the database', 'created in this session', 'created and flushed in this session')[o],
